@@ -44,6 +44,7 @@ theorem den_effect (t : Tree) : ∀ (v : Nat) (g : Tag) (w : World),
   | N id => intro v g w; simp [den, new, userEffect, run, emit_eq_emits]
   | W id => intro v g w; simp [den, new, userEffect, run, emit_eq_emits]
   | H id => intro v g w; simp [den, new, userEffect, run, emit_eq_emits]
+  | G id => intro v g w; simp [den, new, userEffect, run, emit_eq_emits]
   | FR t ih => intro v g w; simp [den, flatMap, doEffect, just, run, ih]
   | FL c t b iht ihb =>
     intro v g w
